@@ -64,7 +64,9 @@ func thoroughConfigs() []Config {
 		}
 	}
 	// Short digests: with 24 bucket bits the stored index key is one byte.
-	short := cfg("mh", false, 24, 48, 48)
+	// (a 24-bit table is 128 MiB per open and per snapshot: 20 bits give the
+	// same single-byte stored keys with 4-byte digests at 8 MiB)
+	short := cfg("mh", false, 20, 48, 48)
 	short.DigestLen = 4
 	cs = append(cs, short)
 	d5 := cfg("mh", false, 16, 48, 48)
